@@ -368,7 +368,7 @@ def lenenc(R):
             R.ob('C03.lenenc', 'arm %s: 7-bit field carries the length' % fmt, ok, 'byte1 = %s' % U(c.args[1]),
                  func=f, node=c)
         else:
-            ok = any(fold(R, p, g.ctx) == marker for p in parts if not isinstance(p, ast.Name)) \
+            ok = any(fold(R, p, g.ctx) == marker for p in parts) \
                 and len(c.args) == 3 and isinstance(c.args[2], ast.Name) and c.args[2].id == lv
             R.ob('C03.lenenc', 'arm %s: marker %d and extended length' % (fmt, marker), ok,
                  'pack(%s)' % ', '.join(U(a) for a in c.args), func=f, node=c)
@@ -404,35 +404,54 @@ def mask(R):
         and rd.defs_at(mn, key.id) == rd.defs_at(pn, key.id)
     R.ob('C03.mask', 'key used for masking is the key written', same_key,
          'mask_payload(%s, ...) but header carries %s' % (U(key), U(pc.args[0])), func=f, node=pc)
-    # key definition: fresh when absent
+    # key definition: fresh when absent (conditional expression, or `if key is None: key = ...`)
+    from .common import value_cases, otext
     ok = False
-    for d in rd.defs_at(mn, key.id) if isinstance(key, ast.Name) else []:
-        v = rd.value_of_def(d, key.id)
-        if isinstance(v, ast.IfExp) and U(v.test) in ('%s is None' % key.id,) and isinstance(v.body, ast.Call) \
-                and _is_urandom4(R, g.ctx, v.body) and U(v.orelse) == key.id:
-            ok = True
-        if isinstance(v, ast.IfExp) and U(v.test) in ('%s is not None' % key.id,) and isinstance(v.orelse, ast.Call) \
-                and _is_urandom4(R, g.ctx, v.orelse) and U(v.body) == key.id:
-            ok = True
-        if isinstance(v, ast.Call) and _is_urandom4(R, g.ctx, v):
-            ok = True
+    if isinstance(key, ast.Name):
+        cases = value_cases(R, g, mn, key)
+        fresh_ok = keep_ok = False
+        other = False
+        NONE = '%s is None' % key.id
+        for (conds, val, site) in cases:
+            if isinstance(val, ast.Call) and _is_urandom4(R, g.ctx, val):
+                if (NONE, True) in conds or len(cases) == 1:
+                    fresh_ok = True
+                else:
+                    other = True
+            elif isinstance(val, ast.Name) and val.id == key.id:
+                keep_ok = True
+            else:
+                other = True
+        # the caller's key may reach the masking call un-replaced only when it is not None
+        param_ok = True
+        if g.entry in rd.defs_at(mn, key.id):
+            from .C04 import _paths_avoiding
+            redefs = set(d for d in rd.defs_at(mn, key.id) if d is not g.entry)
+            for l in _paths_avoiding(R, g, rd, g.entry, mn, redefs):
+                if (NONE, False) not in l:
+                    param_ok = False
+        ok = fresh_ok and not other and param_ok
     R.ob('C03.mask', 'absent key is os.urandom(4)', ok, 'masking key is not drawn from os.urandom(4) when none is '
          'supplied', func=f, node=mc, construct='masking key source')
     # masked object == serialised object, and its length is the encoded length
     ser = None
     for n in g.live_nodes():
-        if n.kind == 'stmt' and isinstance(n.ast, ast.Assign) and isinstance(n.ast.value, ast.Call) \
-                and U(n.ast.value.func) in ("b''.join",) and pc in n.calls:
-            elts = n.ast.value.args[0].elts if isinstance(n.ast.value.args[0], (ast.Tuple, ast.List)) else []
-            order_ok = len(elts) == 3 and isinstance(elts[0], ast.Name) and elts[1] is pc
-            body = elts[2] if len(elts) == 3 else None
+        if n.kind != 'stmt' or not isinstance(n.ast, (ast.Assign, ast.Return)):
+            continue
+        jv = n.ast.value
+        if isinstance(jv, ast.Call) and U(jv.func) in ("b''.join",) and jv.args and isinstance(jv.args[0], (ast.Tuple, ast.List)) \
+                and len(jv.args[0].elts) == 3 and mn in g.reachable([g.entry], avoid={n}) and n in g.succ_reach(mn):
+            elts = jv.args[0].elts
+            k_el = elts[1]
+            ko, kon = rd.origin(n, k_el)
+            order_ok = isinstance(elts[0], ast.Name) and ko is pc
+            body = elts[2]
             while isinstance(body, ast.Call) and U(body.func) in ('bytes', 'bytearray') and body.args:
                 body = body.args[0]
             same_obj = isinstance(body, ast.Name) and isinstance(data, ast.Name) and body.id == data.id \
                 and rd.defs_at(n, body.id) == rd.defs_at(mn, data.id)
-            hdr = rd.origin(n, elts[0])[0] if elts else None
             R.ob('C03.mask', 'frame = header | key | masked payload', order_ok and same_obj,
-                 'serialisation order/object: %s' % U(n.ast.value), func=f, node=n.ast)
+                 'serialisation order/object: %s' % U(jv), func=f, node=n.ast)
             ser = n
     R.ob('C03.mask', 'masked frame assembly found', ser is not None, 'b"".join((header, key, payload)) not found',
          func=f, node=mc, construct='masked frame assembly')
@@ -447,22 +466,45 @@ def mask(R):
     need(len(unpack) == 1, 'mask_payload: table unpack not found')
     names = [e.id for e in unpack[0].targets[0].elts]
     v = unpack[0].value
+    g2 = R.cfg(q2)
+    un = [n for n in g2.live_nodes() if n.ast is unpack[0]][0]
+    from .common import otext_full
+    it_txt = otext_full(R, g2, un, v.generators[0].iter) if isinstance(v, (ast.GeneratorExp, ast.ListComp)) else ''
     okt = isinstance(v, (ast.GeneratorExp, ast.ListComp)) and isinstance(v.elt, ast.Subscript) \
         and U(v.elt.value) == '_XOR_TABLE' and U(v.elt.slice) == U(v.generators[0].target) \
-        and U(v.generators[0].iter) in ('bytearray(%s)' % kparam, kparam) and len(names) == 4
+        and it_txt in ('bytearray(%s)' % kparam, kparam) and len(names) == 4
     R.ob('C03.mask', 'tables selected by key bytes in order', okt, 'tables: %s' % U(v), func=f2, node=unpack[0])
     lanes = {}
-    for s in own_nodes(f2.node):
-        if isinstance(s, ast.Assign) and isinstance(s.targets[0], ast.Subscript) and U(s.targets[0].value) == dparam:
-            sl = s.targets[0].slice
+
+    def lane_ok(tgt, val, i, table_name):
+        sl = tgt.slice
+        return isinstance(val, ast.Call) and isinstance(val.func, ast.Attribute) and val.func.attr == 'translate' \
+            and U(val.func.value) == U(tgt) and len(val.args) == 1 and isinstance(val.args[0], ast.Name) \
+            and val.args[0].id == table_name
+
+    for s_ in own_nodes(f2.node):
+        if isinstance(s_, ast.Assign) and isinstance(s_.targets[0], ast.Subscript) and U(s_.targets[0].value) == dparam:
+            sl = s_.targets[0].slice
             if isinstance(sl, ast.Slice) and sl.step is not None and U(sl.step) == '4' and sl.upper is None:
                 i = 0 if sl.lower is None else fold(R, sl.lower, None)
-                val = s.value
-                ok = isinstance(val, ast.Call) and isinstance(val.func, ast.Attribute) and val.func.attr == 'translate' \
-                    and U(val.func.value) == U(s.targets[0]) and len(val.args) == 1 and isinstance(val.args[0], ast.Name) \
-                    and i in (0, 1, 2, 3) and val.args[0].id == names[i]
-                lanes[i] = ok
-                R.ob('C03.mask', 'lane %s' % i, ok, 'lane %s: %s' % (i, U(s)), func=f2, node=s)
+                if i in (0, 1, 2, 3):
+                    ok = lane_ok(s_.targets[0], s_.value, i, names[i])
+                    lanes[i] = ok
+                    R.ob('C03.mask', 'lane %s' % i, ok, 'lane %s: %s' % (i, U(s_)), func=f2, node=s_)
+                elif isinstance(sl.lower, ast.Name):
+                    # loop form: for i, table in enumerate((t0, t1, t2, t3)): data[i::4] = data[i::4].translate(table)
+                    parents = R.types.parents(f2)
+                    p_ = parents.get(id(s_))
+                    okl = isinstance(p_, ast.For) and isinstance(p_.target, ast.Tuple) and len(p_.target.elts) == 2 \
+                        and U(p_.target.elts[0]) == sl.lower.id and isinstance(p_.iter, ast.Call) and U(p_.iter.func) == 'enumerate' \
+                        and len(p_.iter.args) == 1 and isinstance(p_.iter.args[0], (ast.Tuple, ast.List)) \
+                        and [U(e) for e in p_.iter.args[0].elts] == names \
+                        and lane_ok(s_.targets[0], s_.value, None, U(p_.target.elts[1]))
+                    for i in range(4):
+                        lanes[i] = okl
+                        R.ob('C03.mask', 'lane %s' % i, okl, 'lanes masked by %s' % U(p_)[:120], func=f2, node=s_)
+                else:
+                    raise AnalysisError('C03.mask: unrecognised lane form %s' % U(s_))
     R.ob('C03.mask', 'all four lanes masked', sorted(lanes) == [0, 1, 2, 3], 'lanes present: %s' % sorted(lanes),
          func=f2, node=f2.node, construct='mask lanes')
     # _XOR_TABLE[b][a] == a ^ b
